@@ -93,6 +93,21 @@ for _ in range(10):
     m = Rec(); m._send_ffcs(a, b, c); add("MachineController_send_ffcs %s %s %s" % (L(a), L(b), L(c)), show(m.calls))
     m = Rec(); m._send_ffe(a, b, c, d); add("MachineController_send_ffe %s %s %s %s" % (L(a), L(b), L(c), L(d)), show(m.calls))
 
+class Rec8(MachineController):
+    def __init__(self, buf):
+        self.calls = []
+        self._scp_data_length = buf
+    def _send_scp(self, *args):
+        self.calls.append(tuple(int(a) for a in args[:-1]) + ([int(b) for b in bytearray(args[-1])],))
+for _ in range(25):
+    buf = rng.choice([1, 3, 4, 4, 8, 8, 12, 5])
+    data = bytes(rng.getrandbits(8) for _ in range(rng.choice([0, 4, 8, 12, 16, 20, 7, 3])))
+    pid, addr = rng.randint(0, 255), rng.getrandbits(28)
+    m = Rec8(buf)
+    def h():
+        m._send_ffd(pid, data, addr); return m.calls
+    add("MachineController_send_ffd %s %s %s %s %d" % (L(buf), L(pid), L([int(b) for b in bytearray(data)]), L(addr), len(data) + 1), exc(h))
+
 class Parent(object):
     _freed = False
 def mk(s, e, off):
